@@ -113,8 +113,9 @@ RefOutcomeOK == r.done \in {"no", "ok", "panic", "stop", "fatal"}
               /\ (r.done = "ok" => r.panics = <<>>) /\ (r.done = "panic" => r.panics # <<>> /\ ~r.panics[Len(r.panics)].rec)
 
 (* ---- invariants of the VM frame machine ---- *)
-\* a frame is marked recovered only by a running deferred call: it is below the top, and the newest panic is marked
-VmRecoveredHasPanic == (phase = "vm" /\ v.done = "no" /\ v.nc = -2) =>
+\* a frame is marked recovered only while the panic it recovered is still linked (as long as no known-anomalous
+\* branch - v.why - has been taken: the stale-link branch breaks exactly this)
+VmRecoveredHasPanic == (phase = "vm" /\ v.done = "no" /\ v.nc = -2 /\ v.why = "") =>
     \A i \in 1..Len(v.calls) : v.calls[i].st = "recovered" => v.panic # <<>>
 \* len(panic chain) >= number of panicked frames
 VmChainCoversPanicked == (phase = "vm" /\ v.done = "no" /\ v.nc = -2 /\ v.why = "") => Len(v.panic) >= NumPanicked(v.calls)
